@@ -545,6 +545,9 @@ class Component(CaselessDict):
         return f"{self.name or type(self).__name__}({dict(self)}{', ' + subs if subs else ''})"
 
     def __eq__(self, other):
+        if not isinstance(other, Component):
+            # a mapping has no subcomponents
+            return not self.subcomponents and super().__eq__(other)
         if len(self.subcomponents) != len(other.subcomponents):
             return False
 
